@@ -287,13 +287,13 @@ Lemma moved_from_guards_nothing w a : handle_disconnect w (handle_moved_from a) 
 Proof. unfold handle_disconnect, checked_lock, handle_moved_from. cbn [h_id h_impl lock]. destruct (h_id a); reflexivity. Qed.
 
 Theorem scoped_move_ctor pf R w src dst a :
-  lookup (w_scoped w) src = Some a -> src <> dst ->
+  lookup (w_scoped w) src = Some a -> lookup (w_scoped w) dst = None -> src <> dst ->
   exists w', step1 pf R w (OScMoveCtor src dst) = (w', None) /\
              w_impls w' = w_impls w /\ w_evs w' = w_evs w /\
              lookup (w_scoped w') dst = Some a /\ lookup (w_scoped w') src = Some (handle_moved_from a) /\
              handle_disconnect w' (handle_moved_from a) = w'.
 Proof.
-  intros Hs Hne. cbn [step1]. rewrite Hs. eexists; split; [reflexivity|]. cbn [set_scoped w_scoped w_impls w_evs].
+  intros Hs Hd Hne. cbn [step1]. rewrite Hs, Hd. eexists; split; [reflexivity|]. cbn [set_scoped w_scoped w_impls w_evs].
   split; [reflexivity|]. split; [reflexivity|]. split; [apply lookup_bind_same|]. split; [|apply moved_from_guards_nothing].
   rewrite lookup_bind_other by exact Hne. apply lookup_bind_same.
 Qed.
